@@ -1,12 +1,116 @@
 /-
-  UnytModel.Ops.C17 — opcodes of the C17 model (prefix `c17.`).
+  UnytModel.Ops.C17 — opcodes of the C17 model (prefix `c17.`): dtype selection of every
+  conversion route, the binary-ufunc operand conversion, `out=` promotion, the LARGE_INPUT
+  warning and the value path, all run on `Generated.liveNumpy` / `Generated.liveRules`
+  (the same definitions the theorems of `UnytProofs/C17.lean` are about).
 -/
 import UnytModel.DriverBase
+import UnytModel.Dtype
+import UnytModel.Generated.DtypeTables
 
 namespace Unyt
+open Unyt.Generated
 
-def opsC17 : Handler := fun _st fields =>
+namespace C17Ops
+
+def parseDtype (k s : String) : Option Dtype := do
+  let kk ← DKind.parse k
+  let n ← s.toNat?
+  some ⟨kk, n⟩
+
+def dtOut : Except Err Dtype → String
+  | .ok d => s!"ok\t{d.kind.char}\t{d.size}"
+  | .error e => s!"err\t{e.str}"
+
+/-- `i:<int>` | `r:<bits>` | `c:<bits>:<bits>` -/
+def parseElem (s : String) : Option (Elem Float) :=
+  match s.splitOn ":" with
+  | ["i", n] => (n.toInt?).map Elem.int
+  | ["r", b] => (fb b).map Elem.real
+  | ["c", a, b] => do
+    let re ← fb a
+    let im ← fb b
+    some (Elem.cplx re im)
+  | _ => none
+
+def elemOut : Elem Float → String
+  | .int n => s!"i:{n}"
+  | .real x => s!"r:{bitsStr x}"
+  | .cplx re im => s!"c:{bitsStr re}:{bitsStr im}"
+
+def valOut : Except Err (Dtype × Elem Float) → String
+  | .ok (d, e) => s!"ok\t{d.kind.char}\t{d.size}\t{elemOut e}"
+  | .error e => s!"err\t{e.str}"
+
+def parseOffset (s : String) : Option (Option Float) :=
+  if s == "none" then some none else (fb s).map some
+
+def parseInts (s : String) : Option (List Int) :=
+  (s.splitOn ",").mapM String.toInt?
+
+end C17Ops
+
+open C17Ops in
+def opsC17 : Handler := fun st fields =>
   match fields with
+  | ["c17.route", r, k, s, q] =>
+    match Route.parse r, parseDtype k s, parseBool q with
+    | some r, some d, some q =>
+      if r == .toValue then
+        match toValueOut liveNumpy liveRules d q with
+        | .ok .pyfloat => some (st, "ok\tpyfloat\t8")
+        | .ok .pycomplex => some (st, "ok\tpycomplex\t16")
+        | .ok (.ndarray x) => some (st, dtOut (.ok x))
+        | .error e => some (st, s!"err\t{e.str}")
+      else some (st, dtOut (routeDtype liveNumpy liveRules r d q))
+    | _, _, _ => none
+  | ["c17.binop", k1, s1] =>
+    match parseDtype k1 s1 with
+    | some d1 => some (st, dtOut (binaryOperandDtype liveNumpy liveRules d1))
+    | none => none
+  | ["c17.binary", k0, s0, k1, s1, mixed, cmp] =>
+    match parseDtype k0 s0, parseDtype k1 s1, parseBool mixed, parseBool cmp with
+    | some d0, some d1, some m, some c => some (st, dtOut (binaryResultDtype liveNumpy liveRules d0 d1 m c))
+    | _, _, _, _ => none
+  | ["c17.out", k0, s0, k1, s1, ko, so, mixed] =>
+    match parseDtype k0 s0, parseDtype k1 s1, parseDtype ko so, parseBool mixed with
+    | some d0, some d1, some o, some m => some (st, dtOut (binaryOutDtype liveNumpy liveRules d0 d1 o m))
+    | _, _, _, _ => none
+  | ["c17.outpromote", ko, so] =>
+    match parseDtype ko so with
+    | some o => some (st, dtOut (outPromote liveNumpy liveRules o))
+    | none => none
+  | ["c17.warn", route, k, s, vs] =>
+    match parseDtype k s, parseInts vs with
+    | some d, some vs =>
+      if route == "copy" then some (st, s!"ok\t{if inUnitsWarns liveRules d vs then 1 else 0}")
+      else if route == "inplace" then some (st, s!"ok\t{if convertToUnitsWarns liveRules d vs then 1 else 0}")
+      else if route == "inbase" then some (st, s!"ok\t{if routeWarns liveRules .inBase d vs then 1 else 0}")
+      else none
+    | _, _ => none
+  | ["c17.value", route, k, s, e, f, o] =>
+    match parseDtype k s, parseElem e, fb f, parseOffset o with
+    | some d, some e, some f, some o =>
+      if route == "copy" then some (st, valOut (inUnitsElem liveNumpy liveRules floatOps d e f o))
+      else if route == "inplace" then some (st, valOut (convertToUnitsElem liveNumpy liveRules floatOps d e f o))
+      else if route == "inbase" then some (st, valOut (inBaseElem liveNumpy liveRules floatOps d e f o))
+      else if route == "binop" then some (st, valOut (binaryOperandElem liveNumpy liveRules floatOps d e f))
+      else none
+    | _, _, _, _ => none
+  | ["c17.dump.large", s] =>
+    match s.toNat? with
+    | some n => some (st, match liveRules.largeInput.lookup n with | some v => s!"ok\t{v}" | none => "none")
+    | none => none
+  | ["c17.dump.universe"] =>
+    some (st, "ok\t" ++ ",".intercalate (liveNumpy.dtypes.map Dtype.str))
+  | ["c17.dump.mulpyfloat", k, s] =>
+    match parseDtype k s with
+    | some d => some (st, dtOut (mulPyFloatDtype liveNumpy d))
+    | none => none
+  | ["c17.dump.resulttype", k0, s0, k1, s1] =>
+    match parseDtype k0 s0, parseDtype k1 s1 with
+    | some a, some b => some (st, dtOut (resultTypeOf liveNumpy a b))
+    | _, _ => none
   | _ => none
 
 end Unyt
